@@ -338,6 +338,18 @@ fn eval_ckpt(dir: &Path, uni: Uni, s1: &[u8], s2: &[u8]) -> Vec<Out> {
         for cut in log0.len()..=logb.len() {
             o.push(step(format!("B{tag}:marker-appended cut {cut}/{}", logb.len()), &logb, cut, Some(&snap), &[&m]));
         }
+        // A checkpoint interrupted while writing the snapshot (here: the snapshot path cannot be created, so
+        // the real `checkpoint` fails in its snapshot step) must leave disk in a state that still recovers to
+        // the live state from the PREVIOUS snapshot + log: the marker may only be logged once the snapshot is safe.
+        let bad = dir.join("no-such-dir").join("k.snap");
+        match st.checkpoint(&bad) {
+            Ok(_) => o.push(out(OB_CKPT, false, format!("state X{tag}: checkpoint to an uncreatable path returned Ok"))),
+            Err(_) => {
+                let logx = std::fs::read(&l).expect("read log");
+                o.push(step(format!("X{tag}:checkpoint-failed-in-snapshot-step"), &logx, logx.len(), if round == 0 { None } else { Some(&snap) }, &[&m]));
+            },
+        }
+        // restore the snapshot file state A for the steps below (the failed attempt must not have touched it)
         // C: the real checkpoint (snapshot + marker + truncate)
         match st.checkpoint(&snap) {
             Err(e) => { o.push(out(OB_CKPT, false, format!("checkpoint: {e}"))); return o; },
